@@ -418,24 +418,33 @@ def make(kind, src_root="/repo"):
 
 
 def main():
-    props = sys.argv[1:] or [f"C{i:02d}" for i in range(1, 21)]
-    bad = 0
-    kinds = [k for k in props if not k.startswith("C")]
-    props = [p for p in props if p.startswith("C")] or [f"C{i:02d}" for i in range(1, 21)]
-    for kind in kinds or ["unparse", "rename_locals"] + sorted(KINDS):
-        d = make(kind)
+    from concurrent.futures import ThreadPoolExecutor
+    args = sys.argv[1:]
+    kinds = [k for k in args if not k.startswith("C")] or ["unparse", "rename_locals"] + sorted(KINDS)
+    props = [p for p in args if p.startswith("C")] or [f"C{i:02d}" for i in range(1, 21)]
+    base = {}
+
+    def run(root, p):
+        return subprocess.run([os.path.join(HERE, "check"), p, "--root", root, "--no-write"], capture_output=True, text=True)
+
+    with ThreadPoolExecutor(max_workers=12) as ex:
+        for p, r in zip(props, ex.map(lambda p: run("/repo", p), props)):
+            base[p] = r.returncode
+        dirs = {k: make(k) for k in kinds}
+        bad = 0
         try:
-            for p in props:
-                r = subprocess.run([os.path.join(HERE, "check"), p, "--root", d, "--no-write"], capture_output=True, text=True)
-                if r.returncode != 0:
+            jobs = [(k, p) for k in kinds for p in props]
+            for (k, p), r in zip(jobs, ex.map(lambda kp: run(dirs[kp[0]], kp[1]), jobs)):
+                if r.returncode != base[p]:
                     bad += 1
-                    print(f"ALARM {kind} {p}: exit {r.returncode}")
+                    print(f"ALARM {k} {p}: exit {r.returncode} (unchanged tree: {base[p]})")
                     for l in r.stdout.splitlines():
                         if "FAIL" in l and l.strip().startswith("FAIL") or "ANALYSIS-ERROR" in l:
                             print("   ", l.strip()[:300])
         finally:
-            shutil.rmtree(d, ignore_errors=True)
-    print(f"global twins: {bad} alarms")
+            for d in dirs.values():
+                shutil.rmtree(d, ignore_errors=True)
+    print(f"global twins: {len(kinds)} transformations x {len(props)} checks, {bad} alarms")
     return 1 if bad else 0
 
 
